@@ -288,7 +288,7 @@ def _cols(m, k):
     return list(m.objs[k].df.columns)
 
 
-def lib_apply(m, op, stacker=None, mask=None):
+def lib_apply(m, op, stacker=None, mask=None, loc=None):
     kind = op[0]
     if kind == "prop":
         _, p, o, a = op
@@ -305,12 +305,13 @@ def lib_apply(m, op, stacker=None, mask=None):
         s = stacker if stacker is not None else m.stack()
         key = list(cols) if len(cols) > 1 else cols[0]
         mask = lib_mask(s, mn) if mask is None else mask
+        ix = s.loc if loc is None else loc  # (an indexer the caller took earlier and kept)
         if o == "+":
-            s.loc[mask, key] += a
+            ix[mask, key] += a
         elif o == "*":
-            s.loc[mask, key] *= a
+            ix[mask, key] *= a
         else:
-            s.loc[mask, key] = a
+            ix[mask, key] = a
         return s
     _, name, p, o, a = op
     s = m.stack(base_types()[name])
@@ -397,6 +398,8 @@ def explore(root, tier, ctx):
                 run_seq(g, v, ops, [i, j], ctx, seen)
                 if ops[i][0] != "inc" and ops[j][0] != "inc":
                     run_seq(g, v, ops, [i, j], ctx, seen, reuse=True)
+                    if ops[i][0] == "prop" and ops[j][0] == "loc":
+                        run_seq(g, v, ops, [i, j], ctx, seen, reuse="kept_loc")
                 if depth >= 3:
                     for k in range(len(ops)):
                         run_seq(g, v, ops, [i, j, k], ctx, seen)
@@ -412,6 +415,11 @@ def run_seq(g, v, ops, idx, ctx, seen, reuse=False):
     ctx.depth(len(idx))
     stacker = None
     applicable = True
+    kept = None
+    if reuse == "kept_loc":
+        # the caller takes `loc = s.loc` once, BEFORE the first operation, and uses that same indexer for the later ones
+        stacker = m.stack()
+        kept = stacker.loc
     for n, i in enumerate(idx):
         op = ops[i]
         last = n == len(idx) - 1
@@ -432,7 +440,7 @@ def run_seq(g, v, ops, idx, ctx, seen, reuse=False):
                     if not ctx.check("view.mask", lm == pm, site=dict(site, mask=op[1]), case=case, observed=lm, expected=pm):
                         return
                 app, selective = twin_apply(m, tw, op, lm)
-                lib_apply(m, op, stacker, lmask)
+                lib_apply(m, op, stacker, lmask, loc=kept)
             else:
                 app, selective = twin_apply(m, tw, op)
                 stacker = lib_apply(m, op, stacker if reuse else None)
